@@ -210,6 +210,10 @@ func runC04(p *Prog, r *Report) {
 	if want("C04.11") {
 		ruleTrSeqAfterFlush(p, r, "C04.11")
 	}
+	if want("C04.27") {
+		// a read-only reopen serves what every live journal holds (shared with C18.11)
+		ruleReadOnlyReplayKept(p, r, "C04.27")
+	}
 	if want("C04.26") {
 		ruleRecordReaderFailure(p, r, "C04.26")
 	}
